@@ -263,7 +263,7 @@ class SettingsReader:
 
     def _applySettings(self, name, val):
         """Add a setting, if it is valid. Capture invalid settings."""
-        _nameToSet, _wasRenamed = self._renamer.renameSetting(name)
+        name, _wasRenamed = self._renamer.renameSetting(name)
 
         if name not in self.cs:
             self.invalidSettings.add(name)
